@@ -6,6 +6,7 @@ package codec
 import (
 	"bytes"
 	"fmt"
+	"strings"
 	"testing"
 
 	"github.com/ClickHouse/ch-go/proto"
@@ -334,4 +335,59 @@ func TestC07LongTailStrings(t *testing.T) {
 			return map[string]any{"kind": "long-tail-string-cuts", "message": name, "tail_bytes": size, "cuts": len(cuts)}
 		})
 	})
+}
+
+// Every kind of the catalog once as the LAST column of a small block (a decoder that reads
+// less than was encoded is exposed only when nothing follows it): all cuts, typed decoding
+// and - where the type is inferable - inferred decoding.
+func TestC07EveryKindLast(t *testing.T) {
+	st := stats.G()
+	first := gen.ByName["Int8|X|Int8"]
+	var n, kinds int64
+	for ki, k := range gen.Kinds {
+		if !stats.Thorough() && strings.Count(k.Shape, "(") > 1 {
+			continue // quick tier: scalars and single wrappers (every hand-written decoder); all shapes in the thorough tier
+		}
+		rows := 3 + ki%3
+		var fv, lv []ref.Val
+		for i := 0; i < rows; i++ {
+			fv = append(fv, first.Value.Example(i+1))
+			lv = append(lv, k.Value.Example(7*ki+i+1))
+		}
+		cols := []colSpec{{Name: "a", Kind: first, Rows: fv}, {Name: "last", Kind: k, Rows: lv}}
+		rev := []int{54460, 54453, 51902}[ki%3]
+		_, in := libInput(cols, false)
+		blk := proto.Block{Info: proto.BlockInfo{BucketNum: -1}, Columns: len(in), Rows: rows}
+		var buf proto.Buffer
+		if err := blk.EncodeBlock(&buf, rev, in); err != nil {
+			t.Fatalf("encode %s: %v", k.T.Name, err)
+		}
+		data := buf.Buf
+		inferable := autoInferable(k.T.Name)
+		if err := decodeTyped(data, rev, cols); err != nil {
+			t.Fatalf("harness: block with last column %s does not decode: %v", k.T.Name, err)
+		}
+		if inferable {
+			if err := decodeAuto(data, rev); err != nil {
+				t.Fatalf("block with last column %s does not decode into inferred columns: %v", k.T.Name, err)
+			}
+		}
+		for cut := 0; cut < len(data); cut++ {
+			n++
+			if err := decodeTyped(data[:cut], rev, cols); err == nil || isPanic(err) {
+				p := st.Violate("truncated-block-accepted", fmt.Sprintf("typed decode of the first %d of %d bytes of a block whose last column is %s returned %v", cut, len(data), k.T.Name, err), []byte(k.Key()))
+				t.Fatalf("C07 typed decode of the first %d of %d bytes (last column %s, rev %d) returned %v (replay %s)", cut, len(data), k.T.Name, rev, err, p)
+			}
+			if inferable {
+				if err := decodeAuto(data[:cut], rev); err == nil || isPanic(err) {
+					p := st.Violate("truncated-block-accepted", fmt.Sprintf("inferred decode of the first %d of %d bytes of a block whose last column is %s returned %v", cut, len(data), k.T.Name, err), []byte(k.Key()))
+					t.Fatalf("C07 inferred decode of the first %d of %d bytes (last column %s, rev %d) returned %v (replay %s)", cut, len(data), k.T.Name, rev, err, p)
+				}
+			}
+		}
+		kinds++
+	}
+	st.Enumerated(n, n)
+	st.Exhaustive(fmt.Sprintf("every one of the %d catalog kinds as the last column of a block, every cut", kinds))
+	st.Sample(map[string]any{"kind": "every-kind-last", "kinds": kinds, "cuts": n})
 }
